@@ -448,8 +448,15 @@ impl Transform {
 
                 loop {
                     let in_ellipsis = template_iter.peek() == Some(&&self.ellipsis);
+                    let cursors = env.iters.clone();
                     match self.expand(template, pattern, env) {
                         Some(cell) => {
+                            // A subtemplate under an ellipsis is repeated until its ellipsis
+                            // variables run out. One that consumed none of them (it has no
+                            // such variable, or only inside a vector) would repeat forever.
+                            if in_ellipsis && env.iters == cursors {
+                                return None;
+                            }
                             v.push(cell);
                             if in_ellipsis {
                                 continue;
